@@ -348,7 +348,9 @@ M("c12-eval-private-globals", ["C12"], CX,
 M("c15-locals-positional", ["C15"], VM,
   "        if compiled.name and compiled.name in compiled.locals:\n            name_slot = compiled.locals.index(compiled.name)",
   "        if compiled.name and compiled.name == compiled.locals[len(compiled.params) + 1 : len(compiled.params) + 2][0:1]:\n            name_slot = compiled.locals.index(compiled.name)",
-  [("C15", "C15-R1", "locals")])
+  [("C15", "C15-R1", "locals")],
+  more=[(CO, "        for var in sorted(local_vars_set):", "        for var in local_vars_set:", 1)],
+  note="positional use of the locals table, with the table back in set order (since fix cceea8f the table alone is sorted)")
 M("c15-message-with-repr", ["C15"], VM,
   "raise JSTypeError(f\"{to_string(callee)} is not a function\")", "raise JSTypeError(f\"{callee} is not a function\")",
   [("C15", "C15-R2", "callee")])
@@ -440,7 +442,7 @@ T("t-precedence-renumbered", ["C13", "C06"], PA,
   "    \"<<\": 8,\n    \">>\": 8,\n    \">>>\": 8,\n    \"+\": 9,\n    \"-\": 9,\n    \"*\": 10,\n    \"/\": 10,\n    \"%\": 10,\n    \"**\": 11,",
   "    \"<<\": 8,\n    \">>\": 8,\n    \">>>\": 8,\n    \"+\": 20,\n    \"-\": 20,\n    \"*\": 30,\n    \"/\": 30,\n    \"%\": 30,\n    \"**\": 40,")
 T("t-extra-opcode-comment", ["C14", "C04"], VM, "                # 16-bit little-endian argument for jumps\n", "                # jump targets: two bytes, low byte first\n")
-T("t-sorted-set-iteration", ["C15"], CO, "        self._cell_vars = list(captured)", "        self._cell_vars = sorted(captured)", count=2)
+T("t-sorted-set-iteration", ["C15"], CO, "        self._cell_vars = sorted(captured)", "        self._cell_vars = list(sorted(captured))", count=2)
 T("t-regex-poll-interval-literal", ["C01", "C10"], RV, "    DEFAULT_POLL_INTERVAL = 100", "    DEFAULT_POLL_INTERVAL = 64")
 T("t-translate-message", ["C01"], VM, "raise TimeLimitError(\"Regex execution timeout\")", "raise TimeLimitError(\"Regular expression timed out\")", count=6)
 
@@ -531,7 +533,7 @@ S("seed-C11-a", ["C11"], "seeded/C11-a/patch.diff", [("C11", "C11-R5b", "seen-se
 S("seed-C12-a", ["C12"], "seeded/C12-a/patch.diff", [("C12", "C12-R3", "_current_vm|_vm")])
 S("seed-C13-a", ["C13"], "seeded/C13-a/patch.diff", [], silent=["C04"], note="documented gap: an off-by-one in a comment-scanning offset is a value-level change")
 S("seed-C14-a", ["C14"], "seeded/C14-a/patch.diff", [("C14", "C14-R1", "16-bit")])
-S("seed-C15-a", ["C15"], "seeded/C15-a/patch.diff", [("C15", "C15-R1b", "num_locals")])
+S("seed-C15-a", ["C05"], "seeded/C15-a/patch.diff", [("C05", "C05-R10", "num_locals")], silent=["C15"], note="obsolete as a C15 seed since fix cceea8f (sorted slot numbers): the positional fill now misbehaves identically under every hash seed, a C05 defect")
 S("seed-C16-a", ["C16"], "seeded/C16-a/patch.diff", [], silent=["C03", "C04"], note="documented gap: which replacement patterns expand is a value-level table")
 S("seed-C17-a", ["C17"], "seeded/C17-a/patch.diff", [("C17", "C17-R8", "field-alias")], silent=["C04"], note="C04 must stay silent")
 S("seed-C18-a", ["C18"], "seeded/C18-a/patch.diff", [], note="documented gap: the exponent threshold is a numeric constant")
@@ -692,15 +694,15 @@ S("seed-C17-b", ["C17"], "seeded/C17-b/patch.diff", [("C17", "C17-R10", "reduce_
 S("seed-C03-b", ["C03"], "seeded/C03-b/patch.diff", [("C03", "C03-R7", "handle_replacement")], note="capture groups passed to the replacer un-normalised (None)")
 S("seed-C08-b", ["C08"], "seeded/C08-b/patch.diff", [("C08", "C08-R8", "_execute_opcode:typeof")], note="typeof-based objectness test accepts null")
 S("seed-C15-b", ["C15"], "seeded/C15-b/patch.diff", [("C15", "C15-R1c", "transfer:js_func._closure_cells")], note="child closure reuses the parent's cell list: positions follow two different list(set) orders")
-M("c15-cells-indexed-by-wrong-table", ["C15"], VM,
+M("c15-cells-indexed-by-wrong-table", ["C05"], VM,
   "                            idx = frame.func.free_vars.index(var_name)\n                            closure_cells.append(frame.closure_cells[idx])",
   "                            idx = compiled_func.free_vars.index(var_name)\n                            closure_cells.append(frame.closure_cells[idx])",
-  [("C15", "C15-R1c", "index:frame.closure_cells")], note="position looked up in the child's table, used in the parent's cells")
-M("c15-cell-storage-from-free-vars", ["C15"], VM,
+  [("C05", "C05-R11", "index:frame.closure_cells")], note="position looked up in the child's table, used in the parent's cells")
+M("c15-cell-storage-from-free-vars", ["C05"], VM,
   "            for var_name in compiled.cell_vars:\n                # Find the initial value from locals",
   "            for var_name in compiled.free_vars:\n                # Find the initial value from locals",
-  [("C15", "C15-R1c", "")], note="cell storage built from the wrong name table")
-T("t-c15-bind-copies-cells-first", ["C15"], VM,
+  [("C05", "C05-R11", "")], note="cell storage built from the wrong name table")
+T("t-c15-bind-copies-cells-first", ["C15", "C05"], VM,
   "            # Copy compiled function reference\n            if hasattr(func, \"_compiled\"):\n                bound_func._compiled = func._compiled\n            # Copy closure cells\n            if hasattr(func, \"_closure_cells\"):\n                bound_func._closure_cells = func._closure_cells\n",
   "            # Copy closure cells\n            if hasattr(func, \"_closure_cells\"):\n                bound_func._closure_cells = func._closure_cells\n            # Copy compiled function reference\n            if hasattr(func, \"_compiled\"):\n                bound_func._compiled = func._compiled\n")
 S("seed-C02-c", ["C02"], "seeded/C02-c/patch.diff", [("C02", "C02-R3c", "host_depth:binding")], note="host-depth counter turned into an int: nested interpreters copy the outermost value")
@@ -750,3 +752,9 @@ M("c07-derived-error-without-parent", ["C07"], CX,
 M("c07-uncaught-name-dropped", ["C07"], VM,
   "                    name if isinstance(name, str) and name else \"Error\",\n", "",
   [("C07", "C07-R9", "uncaught-object")], note="fix a3da203 reverted")
+
+M("c15-slots-in-set-order-again", ["C15"], CO,
+  "        for var in sorted(local_vars_set):", "        for var in local_vars_set:",
+  [("C15", "C15-R1d", "_emit:message")], note="fix cceea8f reverted for locals: the slot number printed by the too-large error depends on the hash seed again")
+T("t-c15-sorted-with-key", ["C15", "C05"], CO,
+  "        for var in sorted(local_vars_set):", "        for var in sorted(local_vars_set, key=str):")
